@@ -9,6 +9,7 @@
 //!            ops  := `O<p>=<content>` | `C<p>=<content>` | `X<p>`   comma separated
 //!            content := `<vid>/<i1.i2...>/<o|t|p>`      (text id / import targets / ok, type error, parse error)
 //! stdout: one JSON object per case:
+//!   state   (with --state, hook H8) the bookkeeping state after every step, canonical text, ` || ` separated
 //!   trace   per step, the sorted multiset of publishDiagnostics notifications as classes
 //!           (what the Coq model predicts), steps separated by `;`
 //!   crash   null | {step, kind: overflow|panic|other, stderr}
@@ -590,6 +591,7 @@ fn run_case(exe: &str, root: &Path, idx: usize, line: &str, oracle: bool, want_s
     let mut crash = Value::Null;
     let mut hist_obs: Option<Vec<(String, String)>> = None;
     let mut state = Value::Null;
+    let mut states: Vec<String> = vec![];
     match Nls::start(exe, &dir, "hist") {
         Err(_) => crash = json!({"step": -1, "kind": "other", "stderr": "server did not start"}),
         Ok(mut s) => {
@@ -599,6 +601,11 @@ fn run_case(exe: &str, root: &Path, idx: usize, line: &str, oracle: bool, want_s
                 let r = apply(&mut s, &dir, op, &mut version).and_then(|_| s.barrier(&dir));
                 match r {
                     Ok(pubs) => {
+                        if want_state {
+                            if let Ok(v) = s.request("verif/state", Value::Null) {
+                                states.push(canon_state(&v));
+                            }
+                        }
                         let mut v: Vec<String> = pubs
                             .iter()
                             .map(|p| format!("{}:{}", path_index(p["uri"].as_str().unwrap_or("")), classes(&p["diagnostics"])))
@@ -613,10 +620,7 @@ fn run_case(exe: &str, root: &Path, idx: usize, line: &str, oracle: bool, want_s
                 }
             }
             if died_at.is_none() && want_state {
-                match s.request("verif/state", Value::Null) {
-                    Ok(v) => state = Value::String(canon_state(&v)),
-                    Err(Dead) => died_at = Some(case.ops.len() as i64),
-                }
+                state = Value::String(states.join(" || "));
             }
             if died_at.is_none() && oracle {
                 match observe(&mut s, &dir, &case, &fin) {
